@@ -193,7 +193,21 @@ def piece_value(piece, frame, atoms):
             level = piece[len(name) + 1 : -1]
             if is_cat(a):
                 col = frame[atom_base(a)]
-                return np.array([str(v) == level for v in col.tolist()], dtype=float)
+                ind = np.array([str(v) == level for v in col.tolist()], dtype=float)
+                if a.startswith("S(") or ", Sum" in a:
+                    # sum-to-zero coding: the column of a level is +1 on its rows and -1 on the rows of the omitted level
+                    # (the last one unless named); `mean` is the constant of the full-rank coding
+                    if level == "mean":
+                        return np.ones(len(frame))
+                    m = re.search(r"(?:S\(\w+\s*,\s*|Sum\()\s*['\"]([^'\"]+)['\"]", a)
+                    if m:
+                        omitted = m.group(1)
+                    else:
+                        dtype = col.dtype
+                        lv = list(dtype.categories) if hasattr(dtype, "ordered") and dtype.ordered else sorted(set(col.tolist()))
+                        omitted = str(lv[-1])
+                    return ind - np.array([str(v) == omitted for v in col.tolist()], dtype=float)
+                return ind
             cols = numeric_columns(a, frame)
             return cols[:, int(level)]
     raise KeyError(f"label piece {piece!r} names no atom of the formula")
